@@ -276,13 +276,13 @@ def write_generic(k: K.Kit, physical: int, stmts: list[tuple], opts: Obj, *, via
     it = k.it
     if namespaces:
         namespaces = [(p, k.new(K.GK, "IRI", ns) if is_strlike(ns) else ns) for p, ns in namespaces]
-    enc = k.generic_encoder(k.attr(opts, "lookup_preset"))
-    stream = k.stream(STREAM_FOR[physical], enc, opts)
     objs = [generic_statement(k, st) for st in stmts]
     if via == "flat":
         frames = it.drain(k.call(k.get(K.GS, "flat_stream_to_frames"), k.generator(objs), opts))
         streams = [e["obj"] for e in it.events if e["kind"] == "setattr" and e["attr"] == "flow" and isinstance(e.get("obj"), Obj) and isinstance(e.get("value"), Obj)]
-        return frames, (streams[-1] if streams else stream)
+        return frames, streams[-1]
+    enc = k.generic_encoder(k.attr(opts, "lookup_preset"))
+    stream = k.stream(STREAM_FOR[physical], enc, opts)
     if via == "grouped2":
         half = (len(objs) + 1) // 2
         sinks = [k.g_sink(objs[:half], namespaces), k.g_sink(objs[half:], namespaces)]
@@ -317,11 +317,11 @@ def rdflib_store_for(k: K.Kit, physical: int, stmts: list[tuple], namespaces: li
 
 def write_rdflib(k: K.Kit, physical: int, stmts: list[tuple], opts: Obj, *, via: str = "store", namespaces: list | None = None) -> tuple[list, Obj]:
     it = k.it
-    stream = k.method(k.get(K.ST, STREAM_FOR[physical]), "for_rdflib", opts)
     if via == "flat":
         frames = it.drain(k.call(k.get(K.RS, "flat_stream_to_frames"), k.generator([rdflib_statement(k, st) for st in stmts]), opts))
         streams = [e["obj"] for e in it.events if e["kind"] == "setattr" and e["attr"] == "flow" and isinstance(e.get("obj"), Obj) and isinstance(e.get("value"), Obj)]
-        return frames, (streams[-1] if streams else stream)
+        return frames, streams[-1]
+    stream = k.method(k.get(K.ST, STREAM_FOR[physical]), "for_rdflib", opts)
     if via == "grouped2":
         half = (len(stmts) + 1) // 2
         stores = [rdflib_store_for(k, physical, stmts[:half], namespaces), rdflib_store_for(k, physical, stmts[half:], namespaces)]
